@@ -55,7 +55,8 @@ func (o c26Op) String() string {
 
 // server-list variants of PublishTunnel; digits name servers S1..S4, 9 = a server without
 // destination record, s = S2's address with S3's id and flags (spoofed identity), n = nil entry
-var c26ServerVariants = []string{"1", "12", "21", "123", "321", "11", "1231", "1234", "", "9", "19", "s", "n1"}
+// non-adjacent duplicates: 121 (A,B,A), 1212 (A,B,A,B), 2112 (B,A,A,B), 1231 (A,B,C,A), 12321
+var c26ServerVariants = []string{"1", "12", "21", "123", "321", "11", "121", "1212", "2112", "1231", "12321", "1234", "12341", "", "9", "19", "s", "1s", "n1"}
 var c26ExpandServers = []string{"1", "123", "21"}
 
 var c26Hosts = []string{"hx", "hy", "cx", "g0", "g1", "none", "empty"}
@@ -384,10 +385,16 @@ func (w *c26World) apply(o c26Op) (problems []string, applicable bool, success b
 		if !samePrefix || before.custom != after.custom {
 			add("publish-changed-registration-or-custom-binding")
 		}
+		idx, known := c26WantServers(o.Servers)
 		if !success {
+			// "for each of at most three distinct requested servers": a request of the owner naming
+			// 1..3 distinct servers (however often repeated) with destination records is a valid one;
+			// sequentially nothing else (lease, lookups) can refuse it
+			if len(idx) >= 1 && len(idx) <= tun.NumRedundantLinks && known {
+				add("publish-of-owner-naming-%d-distinct-known-servers-refused(%v)", len(idx), err)
+			}
 			break
 		}
-		idx, known := c26WantServers(o.Servers)
 		if len(idx) < 1 || len(idx) > tun.NumRedundantLinks || !known {
 			add("publish-succeeded-with-%d-distinct-servers-known=%v", len(idx), known)
 			break
